@@ -74,7 +74,8 @@ ZONES = {
 }
 NO_DST_START = "2021-06-10"
 
-A_COEF = {"observed": (100.0, 1.1), "temperature": (30.0, 0.013), "ghi": (5.0, 0.37)}
+# irradiance starts below zero (night-time offsets of a measured pyranometer feed are small negative numbers): supplied values of either sign
+A_COEF = {"observed": (100.0, 1.1), "temperature": (30.0, 0.013), "ghi": (-3.0, 0.37)}
 COLS3 = ("temperature", "observed", "ghi")
 RUNS = (2, 6, 23, 24, 25, 48)
 
